@@ -130,9 +130,11 @@ type Case struct {
 	TZ     string `json:"tz,omitempty"` // value of the TZ variable during the run ("-" = unset)
 	// Hazard: the expression contains a range whose size the model could not
 	// bound once it left the specified part; such a case is not executed.
-	Hazard bool   `json:"hazard,omitempty"`
-	Exp    Expect `json:"expect"`
-	Msg    string `json:"message,omitempty"`
+	Hazard bool `json:"hazard,omitempty"`
+	// HashOrder: the expression contains a hash literal with several pairs.
+	HashOrder bool   `json:"hash_order,omitempty"`
+	Exp       Expect `json:"expect"`
+	Msg       string `json:"message,omitempty"`
 }
 
 func (c *Case) fix() {
@@ -251,6 +253,12 @@ func checkEffects(res eng.Result, exp Expect) error {
 func runCase(c *Case) error {
 	if c.Exp.Unspec && (c.Hazard || strings.HasPrefix(c.Exp.Why, "resource:")) {
 		return nil // excluded by the property: (possibly) needs more memory than a host has
+	}
+	if c.Exp.Err && c.Hazard && c.HashOrder {
+		// the model met an error in written order; the engine evaluates the pairs
+		// of a hash literal in key order and may reach a range first whose size
+		// the model never looked at
+		return nil
 	}
 	var obj interface{}
 	if c.Obj != nil {
